@@ -13,12 +13,14 @@ import (
 )
 
 type Console struct {
-	mu     sync.Mutex
-	cond   *sync.Cond
-	chunks [][]byte
-	out    []byte
-	closed bool
-	w, h   uint16
+	// AfterSize, when set, runs each time Size has read the size (before it returns)
+	AfterSize func()
+	mu        sync.Mutex
+	cond      *sync.Cond
+	chunks    [][]byte
+	out       []byte
+	closed    bool
+	w, h      uint16
 	// OnWrite, when set, is called (outside the lock) with every write.
 	OnWrite func(p []byte)
 	// Reads counts completed Read calls that returned data.
@@ -149,6 +151,11 @@ func (c *Console) Reset() error {
 }
 func (c *Console) Size() (console.WinSize, error) {
 	c.mu.Lock()
-	defer c.mu.Unlock()
-	return console.WinSize{Width: c.w, Height: c.h}, nil
+	ws := console.WinSize{Width: c.w, Height: c.h}
+	after := c.AfterSize
+	c.mu.Unlock()
+	if after != nil {
+		after() // a linearisation point for schedules: the caller has read the size, nothing else yet
+	}
+	return ws, nil
 }
